@@ -210,14 +210,30 @@ fn apply(c: &mut Case, d: &Dim, v: u64) {
     }
 }
 
-fn c02_transports(op: u64) -> Vec<Tr> {
+fn c02_transports(op: u64, reqlen: usize) -> Vec<Tr> {
     let n = ops::struct_size(op);
-    vec![
+    let mut v = vec![
         Tr::Chan,
         Tr::Sep(2 << 20),
         virt_simple(8192, true),
         Tr::Virt { cuts: vec![40, 40 + n], wr: vec![16, 8192], gap: 8, wr_in_b: true, cache: true },
-    ]
+    ];
+    // descriptor boundaries inside the argument structure and inside the trailing data (names, payloads):
+    // a decoder that takes what one descriptor holds instead of what the request holds is only visible here
+    let tail = reqlen.saturating_sub(40 + n);
+    let mut cutsets: Vec<Vec<usize>> = Vec::new();
+    if n >= 2 {
+        cutsets.push(vec![40 + n / 2]);
+    }
+    if tail >= 2 {
+        cutsets.push(vec![40 + n + 1]);
+        cutsets.push(vec![40 + n + tail / 2]);
+        cutsets.push(vec![40, 40 + n, reqlen - 1]);
+    }
+    for cuts in cutsets {
+        v.push(Tr::Virt { cuts, wr: vec![8192 + 16], gap: 8, wr_in_b: true, cache: true });
+    }
+    v
 }
 
 fn diff_key(exp: &str, got: &str) -> String {
@@ -295,7 +311,7 @@ pub fn c02(args: &Args) -> Report {
         }
         let dims = dims_of(op);
         let base = ops::base_case(op);
-        let trs = c02_transports(op);
+        let trs = c02_transports(op, base.req().bytes().len());
         // deviation 0
         for tr in &trs {
             if rep.mine(idx) {
@@ -309,6 +325,7 @@ pub fn c02(args: &Args) -> Report {
                 let mut c = base.clone();
                 apply(&mut c, d, v);
                 let big = c.payload.len() > 8192 || c.name1.len() > 1024 || c.name2.len() > 1024;
+                let trs = c02_transports(op, c.req().bytes().len());
                 for (ti, tr) in trs.iter().enumerate() {
                     if big && ti >= 2 && !thorough {
                         continue;
@@ -332,8 +349,8 @@ pub fn c02(args: &Args) -> Report {
                         apply(&mut c, &dims[i], vi);
                         apply(&mut c, &dims[j], vj);
                         // pairs: channel transport always; the others in the thorough tier
-                        let ntr = if thorough { trs.len() } else { 1 };
-                        for tr in trs.iter().take(ntr) {
+                        let trs = if thorough { c02_transports(op, c.req().bytes().len()) } else { vec![Tr::Chan] };
+                        for tr in trs.iter() {
                             if rep.mine(idx) {
                                 c02_check(
                                     &mut rig,
@@ -667,7 +684,7 @@ pub fn c01_shapes(op: u64, thorough: bool, cap: usize) -> Vec<Shape> {
 
 /// Reply size the protocol prescribes for a well-formed request answered by `script`.
 fn need(op: u64, script: Script, body: &[u8]) -> usize {
-    let ok = matches!(script, Script::OkSmall | Script::OkBig);
+    let ok = matches!(script, Script::OkSmall | Script::OkBig | Script::Negative);
     if op == k::FUSE_INIT && body.len() >= 4 {
         // the major version decides before the filesystem is asked
         let major = wire::get_at(body, 0, 4);
@@ -681,7 +698,7 @@ fn need(op: u64, script: Script, body: &[u8]) -> usize {
     if !ok || !ops::wants_reply(op) {
         return 16;
     }
-    let data = if script == Script::OkSmall { 10usize } else { 70_000 };
+    let data = if script == Script::OkBig { 70_000usize } else { 10 };
     let sz = |lay: &'static k::Lay, f: &str| if body.len() >= lay.size { wire::get(body, lay, f) as usize } else { 0 };
     16 + match op {
         k::FUSE_LOOKUP | k::FUSE_SYMLINK | k::FUSE_MKNOD | k::FUSE_MKDIR | k::FUSE_LINK => 128,
@@ -1020,6 +1037,44 @@ pub fn c01(args: &Args) -> Report {
     }
     // part 5: descriptor chains that cannot be mapped: construction must fail cleanly
     c01_bad_chains(&mut rig, &mut rep, &mut idx);
+    // part 6: the server's own state. The only state a Server keeps between requests is the protocol version
+    // negotiated by INIT; every reply path that depends on it (negative entries, compat layouts) is driven here:
+    // an INIT with each minor on a fresh server, then every opcode's well-formed request with every script
+    // (including a successful lookup result with inode 0) on reply areas around the sizes that matter.
+    let mut minors: Vec<u32> = (0..=40).collect();
+    minors.push(u32::MAX);
+    let vtrs = [
+        Tr::Chan,
+        Tr::Sep(8192 + 16),
+        Tr::Sep(16),
+        Tr::Sep(143),
+        Tr::Sep(144),
+        virt_simple(8192 + 16, true),
+        Tr::Virt { cuts: vec![40], wr: vec![16, 8192], gap: 8, wr_in_b: true, cache: true },
+        Tr::Virt { cuts: vec![40], wr: vec![16], gap: 8, wr_in_b: true, cache: false },
+        Tr::Virt { cuts: vec![13], wr: vec![15, 1, 128], gap: 8, wr_in_b: true, cache: false },
+    ];
+    let mut versioned = 0u64;
+    for &minor in &minors {
+        rig.fresh_server();
+        let init = Req::new(k::FUSE_INIT, 1, init_body(7, minor, 0x7fff_ffff, Some(k::FUSE_INIT_IN.size - 16))).bytes();
+        let _ = rig.run(&init, &Tr::Sep(8192 + 16), Script::OkSmall.answer());
+        for &op in ops::ALL_OPS.iter().filter(|o| **o != k::FUSE_INIT) {
+            let reqb = wf_case(op).req().bytes();
+            for tr in &vtrs {
+                for sc in Script::ALL.iter().copied().chain([Script::Negative]) {
+                    if rep.mine(idx) {
+                        let cs = C01Case { req: &reqb, tr, script: sc, wellformed: true, label: format!("{}:after-INIT-7.{}", ops::op_name(op), minor) };
+                        c01_run(&mut rig, &mut rep, &cs);
+                        versioned += 1;
+                    }
+                    idx += 1;
+                }
+            }
+        }
+    }
+    rig.fresh_server();
+    rep.set("sum_cases_after_negotiated_version", json!(versioned));
     rep.set("total_cases_all_shards", json!(idx));
     rep.set("opcodes", json!(opcodes.len()));
     rep
